@@ -14,8 +14,10 @@ import (
 	"io"
 	"net"
 	"net/netip"
+	"net/url"
 	"regexp"
 	"strings"
+	"sync"
 	"testing"
 
 	"github.com/daeuniverse/dae/common/assets"
@@ -364,5 +366,125 @@ func TestVerifC07(t *testing.T) {
 			return c07Result{Panic: "bad case json: " + err.Error()}
 		}
 		return c07Run(&cs)
+	})
+}
+
+// ---- concurrent lazy initialisation of an upstream (UpstreamResolver.GetUpstream) ----
+// N callers of Dns.RequestSelect for a question routed to the not yet initialised upstream u1 are all held inside
+// the initialisation (package seam newUpstreamFunc) until every one of them has entered the slow path; then they are
+// let go ONE AT A TIME in a scripted order, each running to completion before the next is released.  No timing
+// verdicts: the schedule is fixed by the gates.  Per caller (in completion order): is the *Upstream it got registered
+// in upstream2Index, under which index, and what does ResponseSelect decide for an answer coming from it under
+// `upstream(u1) -> reject; fallback: accept`.  A last caller arrives after all (fast path).
+
+type c07InitCase struct {
+	N     int   `json:"n"`
+	Order []int `json:"order"` // tickets (order of entering the slow path) in the order they are let go
+}
+type c07InitCaller struct {
+	Registered bool   `json:"registered"`
+	Index      int    `json:"index"`
+	Verdict    int    `json:"verdict"` // ResponseSelect index (0xFC accept, 0xFD reject), -1 on error
+	Err        string `json:"err,omitempty"`
+}
+type c07InitResult struct {
+	Callers []c07InitCaller `json:"callers"` // completion order = Order; the late fast-path caller last
+	Panic   string          `json:"panic,omitempty"`
+}
+
+func c07RunInit(cs *c07InitCase) (res c07InitResult) {
+	defer func() {
+		if r := recover(); r != nil {
+			res.Panic = fmt.Sprint(r)
+		}
+	}()
+	log := logrus.New()
+	log.SetOutput(io.Discard)
+	conf := &config.Dns{Upstream: []config.KeyableString{"u0:udp://10.0.0.1:53", "u1:udp://10.0.0.2:53"}}
+	conf.Routing.Request.Fallback = "u1"
+	conf.Routing.Response.Rules = c07Rules([]c07Rule{{Conds: []c07Cond{{F: "upstream", Params: [][2]string{{"", "u1"}}}}, Target: "reject"}})
+	conf.Routing.Response.Fallback = "accept"
+	s, err := New(conf, &NewOption{Logger: log, LocationFinder: assets.NewLocationFinder(nil),
+		UpstreamReadyCallback: func(*Upstream) error { return nil }})
+	if err != nil {
+		panic(err)
+	}
+	var mu sync.Mutex
+	ticket := 0
+	entered := make(chan int, cs.N)
+	release := make([]chan struct{}, cs.N)
+	for i := range release {
+		release[i] = make(chan struct{})
+	}
+	original := newUpstreamFunc
+	defer func() { newUpstreamFunc = original }()
+	newUpstreamFunc = func(ctx context.Context, raw *url.URL, network string, resolve resolveUpstreamIp46Func) (*Upstream, error) {
+		if raw.Hostname() != "10.0.0.2" {
+			return original(ctx, raw, network, resolve)
+		}
+		mu.Lock()
+		t := ticket
+		ticket++
+		mu.Unlock()
+		if t < cs.N {
+			entered <- t
+			<-release[t]
+		}
+		return original(ctx, raw, network, resolve)
+	}
+	ctx := context.Background()
+	results := make(chan *Upstream, cs.N)
+	errs := make(chan error, cs.N)
+	for i := 0; i < cs.N; i++ {
+		go func() {
+			defer func() {
+				if r := recover(); r != nil {
+					errs <- fmt.Errorf("PANIC: %v", r)
+					results <- nil
+				}
+			}()
+			_, up, err := s.RequestSelect(ctx, "www.example.com.", 1)
+			errs <- err
+			results <- up
+		}()
+	}
+	for i := 0; i < cs.N; i++ {
+		<-entered // every caller is now past the state load, inside the build
+	}
+	observe := func(up *Upstream, err error) c07InitCaller {
+		c := c07InitCaller{Index: -1, Verdict: -1}
+		if err != nil || up == nil {
+			c.Err = fmt.Sprint("no upstream: ", err)
+			return c
+		}
+		if v, ok := s.upstream2Index.Load(up); ok {
+			c.Registered, c.Index = true, v.(int)
+		}
+		idx, _, rerr := s.ResponseSelect(ctx, c07Msg(c07Probe{Resp: true, Name: "www.example.com.", QType: 1, Ans: []string{"A:192.0.2.9"}}), up)
+		if rerr != nil {
+			c.Err = rerr.Error()
+			return c
+		}
+		c.Verdict = int(idx)
+		return c
+	}
+	for _, t := range cs.Order {
+		close(release[t])
+		err := <-errs
+		up := <-results
+		res.Callers = append(res.Callers, observe(up, err))
+	}
+	_, up, err := s.RequestSelect(ctx, "www.example.com.", 1)
+	res.Callers = append(res.Callers, observe(up, err))
+	return res
+}
+
+func TestVerifC07Init(t *testing.T) {
+	verifEachLine(t, func(line []byte) any {
+		var cs c07InitCase
+		if err := json.Unmarshal(line, &cs); err != nil {
+			return c07InitResult{Panic: "bad case json: " + err.Error()}
+		}
+		return c07RunInit(&cs)
 	})
 }
